@@ -268,3 +268,38 @@ func Shard() (int, int) {
 	}
 	return i, n
 }
+
+// ---------------------------------------------------------------- in-flight cases
+
+func inflightPath(prop, sub string) string {
+	dir := os.Getenv("VERIF_REPLAY_DIR")
+	if dir == "" {
+		dir = os.TempDir()
+	}
+	shard := os.Getenv("VERIF_SHARD")
+	if shard == "" {
+		shard = "0"
+	}
+	return filepath.Join(dir, fmt.Sprintf("%s-%s-s%s.inflight.json", prop, sub, shard))
+}
+
+// Inflight writes the case about to be executed to a side file.  Checks whose
+// failure mode kills the process (race detector with halt_on_error, fatal
+// runtime errors, wedged processes) call it before running the case and
+// ClearInflight afterwards; the driver promotes a left-over file to the replay
+// file when the process died inside the case.
+func Inflight(prop, sub string, kase any, summary string) {
+	cf := CaseFile{Property: prop, Sub: sub, Summary: trunc(summary, 6000), Gob: Encode(kase)}
+	b, _ := json.MarshalIndent(cf, "", " ")
+	_ = os.MkdirAll(filepath.Dir(inflightPath(prop, sub)), 0o755)
+	_ = os.WriteFile(inflightPath(prop, sub), b, 0o644)
+}
+
+// InflightFile marks an existing case file as in flight (pinned cases).
+func InflightFile(prop, sub string, cf *CaseFile) {
+	b, _ := json.MarshalIndent(cf, "", " ")
+	_ = os.MkdirAll(filepath.Dir(inflightPath(prop, sub)), 0o755)
+	_ = os.WriteFile(inflightPath(prop, sub), b, 0o644)
+}
+
+func ClearInflight(prop, sub string) { _ = os.Remove(inflightPath(prop, sub)) }
